@@ -30,12 +30,10 @@
       fails" ([exec_pieces]); the piece list is also the trace the driver
       compares with the real calls of [fcache_pread] / [fcache_get_chunk]. *)
 From Coq Require Import NArith ZArith List Bool.
-From KdV Require Import Base.Wrap64 Map.MapModel.
+From KdV Require Import Base.Wrap64 Base.ByteSeq Map.MapModel.
 Import ListNotations.
 Local Open Scope N_scope.
 
-Definition byte := N.
-Definition bytes := list byte.
 
 (* kdump_status *)
 Definition ST_OK : N := 0.
